@@ -203,20 +203,6 @@ example :
 
 /-! ### the whole history -/
 
-/-- the rule operations of a session's lifetime that touch PDR / URR bookkeeping -/
-inductive SOp
-  | createURR (ie : RuleIE) | updateURR (ie : RuleIE) | removeURR (ie : RuleIE) | queryURR (ie : RuleIE)
-  | createPDR (ie : RuleIE) | updatePDR (ie : RuleIE) | removePDR (ie : RuleIE)
-
-def SOp.apply (s : Sess) (c : Ctx) : SOp → Sess × Ctx
-  | .createURR ie => s.createURR ie c
-  | .updateURR ie => ((s.updateURR ie c).1, (s.updateURR ie c).2.1)
-  | .removeURR ie => ((s.removeURR ie c).1, (s.removeURR ie c).2.1)
-  | .queryURR ie => ((s.queryURR ie c).1, (s.queryURR ie c).2.1)
-  | .createPDR ie => s.createPDR ie c
-  | .updatePDR ie => ((s.updatePDR ie c).1, (s.updatePDR ie c).2.1)
-  | .removePDR ie => ((s.removePDR ie c).1, (s.removePDR ie c).2.1)
-
 def run (s : Sess) (c : Ctx) : List SOp → Sess × Ctx
   | [] => (s, c)
   | op :: ops => run (op.apply s c).1 (op.apply s c).2 ops
